@@ -65,6 +65,11 @@ def main():
     ctx.build = b
     obl = common.obligations_for(mod.TOP, b)
     ctx.obligations = obl
+    if args.tier == 'thorough' and not args.no_build and not obl['broken']:
+        obl['coqchk'] = common.run_coqchk(mod.TOP)
+        for name, res in obl['coqchk'].items():
+            if res.get('status') == 'failed':
+                obl['broken'].append('coqchk rejects %s: %s' % (name, res.get('tail', '')[:200]))
     # 2. correspondence + oracles (always run: they are what turns a broken obligation into a replay)
     result = mod.run(ctx)
     # 3. verdict
